@@ -84,6 +84,19 @@ CLAIMED = {
              "C20_zero_reported_one / C20_refuted_F7; the model mirrors the code, the oracle separates this known finding from any other).",
              T_REF, "DESIGN.md section 6 C20", "Known finding F7 (known_findings.json): true indegree 0 reported as 1, pinned by the repository's own test."),
 }
-PENDING = {
-    "C16": "not claimed yet: cooperative interleaving needs a coroutine model of the generator requests (Sched.v) and a schedule-exploration runner; under construction",
-}
+CLAIMED["C16"] = c(
+    "Props/C16.v (SchedFacts*.v) on the coroutine model of the generator requests (Sched.v: one step = the code between two yields, with "
+    "the generator's local caches, traversal stacks of block addresses and node data read before a yield): a batch run alone equals the "
+    "request (batch_alone); for ANY number of crawl batches advanced by ANY schedule from any state related to the specification, the "
+    "invariants (well-formed tree, addresses, stub chains, Rcore) hold at every intermediate state (C16_invariant) and, once all are done, "
+    "the pages with crawled marks are those of the batches applied one after another, the out- and in-chains of every page are permutations "
+    "of the sequential ones, in = transpose of out (C16_schedule_independent); for a page query interleaved with batches every item "
+    "appended is, at that moment, a page under one of the query's prefixes (C16_sandwich_partial: soundness; completeness for pages "
+    "qualifying throughout is not proved, it is checked on the implementation). 'No request fails' and the stale-copy hazard are carried by "
+    "running the real generators, every loop iteration a yield point, under random and enumerated schedules against the coroutine model "
+    "(bytes compared), incl. rule installations against batches that touch the anchor node.",
+    "Coq proof: schedule independence of crawl batches by a per-step invariant with ghost link lists; schedule exploration of the real generators",
+    "DESIGN.md section 6 C16",
+    "Partial: cooperative single-threaded scheduling only (as the property states); the query sandwich is proved for soundness only; the rule-install and "
+    "query coroutines are in correspondence but only batches are covered by the independence theorem.")
+PENDING = {}
